@@ -122,6 +122,15 @@ def check_lines(ctx, out, names, nt):
                     "<Invalid ZonedDateTime>", "<Error>", "<Error>"]
             if got != want:
                 ctx.violation("placeholders", {"line": "ERR"}, "error placeholders %r want %r" % (got, want))
+        elif k == "ZLONG":
+            f = body.split("|")
+            ln, t = [int(x) for x in f[0].split()]
+            name = "T/" + "".join(chr(ord("a") + (k_ % 26)) for k_ in range(2, ln))
+            got = [unhex(x) for x in f[1:]]
+            nt.add(("zlong", ln))
+            if not (got[0].endswith("[" + name + "]") and got[1].endswith("[" + name + "]") and got[2] == name and got[3] == name.split("/")[-1]):      # printShortTo(): the part after the last '/'
+                ctx.violation("long-zone-name:%d" % ln, {"line": "ZLONG " + f[0]},
+                              "a zone whose name has %d characters printed %r / %r / %r / %r, want the full name %r" % (ln, got[0][-45:], got[1][-45:], got[2][-45:], got[3][-45:], name))
         elif k == "ERR3":
             f = body.split("|")
             kinds = ["LocalDate", "LocalTime", "LocalDateTime", "OffsetDateTime", "ZonedDateTime", "ZonedDateTime", "OffsetDateTime"]
@@ -168,6 +177,9 @@ def run(ctx):
     thorough = ctx.tier == "thorough"
     rnd = random.Random(ctx.seed)
     lines = ["ERR"]
+    # zone names longer than any shipped one (the longest IANA names have 32 characters; the record format sets no limit)
+    for ln in list(range(3, 70)) + [100, 150, 199]:
+        lines.append("ZLONG %d %d" % (ln, 646531200 + ln * 86400))
     # error values with exactly one invalid part (and valid controls)
     for comp in ((2018, 8, 31, 13, 48, 1), (2018, 13, 1, 0, 0, 0), (2018, 0, 1, 0, 0, 0), (2018, 1, 0, 0, 0, 0), (2018, 1, 32, 0, 0, 0),
                  (2018, 1, 1, 25, 0, 0), (2018, 1, 1, 0, 60, 0), (2018, 1, 1, 0, 0, 60), (2018, 1, 1, 24, 0, 1), (2018, 1, 1, 24, 1, 0), (2018, 1, 1, 24, 30, 30), (2060, 6, 1, 12, 0, 0), (1990, 6, 1, 12, 0, 0),
